@@ -294,6 +294,8 @@ fn type_of(ext: &str, width: i32) -> (u8, u8) {
 enum Job {
     Meta(usize, String, Meta),          // format, varied dimension, metadata
     Split(usize, usize, usize, usize),  // format, content index, comment count, comment style
+    /// a file with SAUCE saved in one format, loaded, saved in another format, loaded: the second record is of the second format's variant
+    Cross(usize, usize, bool),
 }
 
 struct Sauce {
@@ -429,6 +431,15 @@ fn build(_prop: &str, tier: &str) -> Sauce {
             }
         }
         contents.push(cs);
+    }
+    for a in 0..FORMATS.len() {
+        for b in 0..FORMATS.len() {
+            if a != b {
+                for ice in [false, true] {
+                    jobs.push(Job::Cross(a, b, ice));
+                }
+            }
+        }
     }
     Sauce { jobs, contents }
 }
@@ -575,6 +586,78 @@ fn check_meta(ext: &str, what: &str, m: &Meta, ctx: &mut Ctx) {
     }
 }
 
+fn check_cross(src: &str, dst: &str, ice: bool, ctx: &mut Ctx) {
+    ctx.count("evaluations", 1);
+    ctx.count("transitions", 4);
+    let mut m = Meta::base();
+    m.ice = ice;
+    m.comments = vec![b"first".to_vec(), b"second line".to_vec()];
+    m.spacing = true;
+    let what = json!({"saved_as": src, "then_saved_as": dst, "ice": ice});
+    let doc = build_doc(src, &m);
+    let Ok(first) = save(&doc, src, true) else {
+        ctx.outcome(3);
+        return;
+    };
+    let mid = match load(src, &first) {
+        Ok(b) => b,
+        Err(e) => {
+            if e.starts_with("PANIC") {
+                ctx.violation(format!("{}:cross-load:{src}", e.replace("PANIC ", "")), what);
+            }
+            return;
+        }
+    };
+    if mid.get_sauce().is_none() {
+        return; // reported by the metadata part
+    }
+    let second = match save(&mid, dst, true) {
+        Ok(b) => b,
+        Err(e) => {
+            if e.starts_with("PANIC") {
+                ctx.violation(format!("{}:cross-save:{dst}", e.replace("PANIC ", "")), what);
+            } else {
+                // the second format can't hold the picture (width, colour mode, font): not a SAUCE matter
+                ctx.count("format_refuses_document", 1);
+                ctx.outcome(3);
+            }
+            return;
+        }
+    };
+    let fin = match load(dst, &second) {
+        Ok(b) => b,
+        Err(e) => {
+            let sig = if e.starts_with("PANIC") { format!("{}:cross-load:{dst}", e.replace("PANIC ", "")) } else { format!("diff:sauce-cross:{dst}:load-refused-own-output") };
+            ctx.violation(sig, json!({"case": what, "error": e}));
+            return;
+        }
+    };
+    ctx.count("nontrivial", 1);
+    let mut f = Fnv::new();
+    f.str(src);
+    f.str(dst);
+    f.bytes(&second[second.len().saturating_sub(128)..]);
+    ctx.state(f.finish());
+    let Some(s) = fin.get_sauce() else {
+        ctx.violation(format!("diff:sauce-cross:{dst}:metadata-missing"), what);
+        return;
+    };
+    let mut diff: Option<(&str, Value)> = None;
+    if s.title.to_string() != "Title" || s.author.to_string() != "Author" || s.group.to_string() != "Group" {
+        diff = Some(("strings", json!([s.title.to_string(), s.author.to_string(), s.group.to_string()])));
+    } else if s.comments.iter().map(|c| c.to_string()).collect::<Vec<_>>() != vec!["first".to_string(), "second line".to_string()] {
+        diff = Some(("comments", json!(s.comments.iter().map(|c| c.to_string()).collect::<Vec<_>>())));
+    } else if s.buffer_size.width != mid.get_width() {
+        diff = Some(("width", json!({"loaded": s.buffer_size.width, "saved_buffer": mid.get_width()})));
+    } else if matches!(variant(dst), Variant::Ansi | Variant::Ascii | Variant::Bin) && s.use_ice != (mid.ice_mode == IceMode::Ice) {
+        // the record describes the buffer that was saved
+        diff = Some(("ice-flag", json!({"loaded": s.use_ice, "saved_buffer_mode": ice_name(mid.ice_mode)})));
+    }
+    if let Some((k, d)) = diff {
+        ctx.violation(format!("diff:sauce-cross:{dst}:{k}"), json!({"case": what, "difference": d}));
+    }
+}
+
 fn check_split(ext: &str, cname: &str, content: &[u8], n: usize, style: usize, ctx: &mut Ctx) {
     ctx.count("evaluations", 1);
     ctx.count("transitions", 2);
@@ -649,11 +732,13 @@ impl Engine for Sauce {
                 let (name, c) = &self.contents[*fi][*ci];
                 check_split(FORMATS[*fi], name, c, *n, *style, ctx)
             }
+            Job::Cross(a, b, ice) => check_cross(FORMATS[*a], FORMATS[*b], *ice, ctx),
         }
     }
     fn describe(&self, idx: u64) -> Value {
         match &self.jobs[idx as usize] {
             Job::Meta(fi, what, m) => json!({"engine": "sauce-metadata", "idx": idx, "format": FORMATS[*fi], "varied": what, "meta": m.json(), "key": format!("sauce-metadata {}", FORMATS[*fi])}),
+            Job::Cross(a, b, ice) => json!({"engine": "sauce-cross", "idx": idx, "saved_as": FORMATS[*a], "then_saved_as": FORMATS[*b], "ice": ice, "key": format!("sauce-cross {}", FORMATS[*b])}),
             Job::Split(fi, ci, n, style) => json!({"engine": "sauce-split", "idx": idx, "format": FORMATS[*fi], "content": self.contents[*fi][*ci].0, "comments": n, "comment_style": style, "key": format!("sauce-split {}", FORMATS[*fi])}),
         }
     }
